@@ -28,6 +28,7 @@ import (
 	"github.com/ipni/go-libipni/announce/message"
 	"github.com/libp2p/go-libp2p"
 	pubsub "github.com/libp2p/go-libp2p-pubsub"
+	"github.com/libp2p/go-libp2p/core/host"
 	"github.com/libp2p/go-libp2p/core/peer"
 
 	"verifharness/fixture"
@@ -63,21 +64,64 @@ var (
 	reentrantCallback bool
 	seqKeyPrefix      = "seq|"
 	c3                = fixture.Cid("c16-three", cid.DagJSON)
+	cFresh            = fixture.Cid("c16-fresh", cid.DagJSON)
 )
 
+// resendTopic: the receivers of the (H) sequences are created with a gossipsub
+// topic on a transport-less libp2p host and WithResend(true): every accepted
+// direct announcement is republished through the receiver's pubsub sender
+// (its own republications come back on the subscription and are ignored), so
+// the sender takes part in every Direct.
+var resendTopic bool
+
 func newReceiver() *announce.Receiver {
+	r, _ := newReceiverCleanup()
+	return r
+}
+
+// newReceiverCleanup also returns what has to be shut down once the receiver
+// is closed (nothing for the receiver without pubsub).
+func newReceiverCleanup() (*announce.Receiver, func()) {
 	var r *announce.Receiver
 	reenter := reentrantCallback
-	r, err := announce.NewReceiver(nil, "", announce.WithAllowPeer(func(p peer.ID) bool {
+	opts := []announce.Option{announce.WithAllowPeer(func(p peer.ID) bool {
 		if reenter {
 			r.UncacheCid(c3)
 		}
 		return p != denied
-	}))
+	})}
+	var h host.Host
+	cleanup := func() {}
+	if resendTopic {
+		var err error
+		h, err = libp2p.New(libp2p.NoListenAddrs, libp2p.Identity(fixture.Key("ed25519", 30).Priv))
+		if err != nil {
+			panic(err)
+		}
+		psCtx, psCancel := context.WithCancel(context.Background())
+		ps, err := pubsub.NewGossipSub(psCtx, h)
+		if err != nil {
+			panic(err)
+		}
+		topic, err := ps.Join("/indexer/ingest/c16")
+		if err != nil {
+			panic(err)
+		}
+		opts = append(opts, announce.WithTopic(topic), announce.WithResend(true))
+		cleanup = func() {
+			topic.Close()
+			psCancel()
+			h.Close()
+			// gossipsub's background loops see their cancelled context only
+			// when they wake: let virtual time pass
+			time.Sleep(30 * time.Minute)
+		}
+	}
+	r, err := announce.NewReceiver(h, "", opts...)
 	if err != nil {
 		panic(err)
 	}
-	return r
+	return r, cleanup
 }
 
 // doOp performs an operation and returns a description of its result.
@@ -270,7 +314,7 @@ func runSequence(t *testing.T, r *vp.Recorder, seq []op) {
 			}
 		}()
 		synctest.Test(t, func(t *testing.T) {
-			rc := newReceiver()
+			rc, shutdown := newReceiverCleanup()
 			m := newModel()
 			var mu sync.Mutex
 			results := map[int]string{}
@@ -318,6 +362,55 @@ func runSequence(t *testing.T, r *vp.Recorder, seq []op) {
 					break
 				}
 			}
+			// "no return path leaves the receiver unusable for the calls that
+			// follow": when the receiver is open and nobody waits, what is queued
+			// is taken out and a direct announcement of a fresh CID goes through:
+			// Direct returns nil, Next returns it
+			if len(mismatch) == 0 && !m.closed && len(m.waitNxt) == 0 && len(m.waitDir) == 0 {
+				follow := func(what string, want string, f func() string) {
+					if len(mismatch) > 0 {
+						return
+					}
+					var got string
+					returned := false
+					go func() {
+						g := f()
+						mu.Lock()
+						got, returned = g, true
+						mu.Unlock()
+					}()
+					synctest.Wait()
+					mu.Lock()
+					defer mu.Unlock()
+					switch {
+					case !returned:
+						mismatch = append(mismatch, fmt.Sprintf("after %s: the follow-up call %s is blocked but must have returned %s", seqName(seq), what, want))
+					case got != want:
+						mismatch = append(mismatch, fmt.Sprintf("after %s: the follow-up call %s returned %s, expected %s", seqName(seq), what, got, want))
+					}
+				}
+				next := func() string {
+					a, err := rc.Next(context.Background())
+					if err != nil {
+						return "err:" + err.Error()
+					}
+					return a.Cid.String()
+				}
+				if m.queue != "" {
+					q := c1
+					if m.queue == "c2" {
+						q = c2
+					}
+					follow("Next (taking out what is queued)", q.String(), next)
+				}
+				follow("Direct(fresh CID)", "nil", func() string {
+					if err := rc.Direct(context.Background(), cFresh, peer.AddrInfo{ID: allowed}); err != nil {
+						return "err:" + err.Error()
+					}
+					return "nil"
+				})
+				follow("Next (after the direct announcement of a fresh CID)", cFresh.String(), next)
+			}
 			// cleanup so that legitimately blocked callers end: close (if that hangs, the recover above handles it)
 			if len(mismatch) == 0 {
 				done := make(chan struct{})
@@ -325,6 +418,7 @@ func runSequence(t *testing.T, r *vp.Recorder, seq []op) {
 				synctest.Wait()
 				select {
 				case <-done:
+					shutdown()
 				default:
 					mismatch = append(mismatch, fmt.Sprintf("after %s: a final Close blocks", seqName(seq)))
 				}
@@ -659,7 +753,7 @@ func pubsubScenario(extra []string) *sched.Scenario {
 
 func TestCheck(t *testing.T) {
 	r := vp.New("C16", "model_checking",
-		"(H) every sequence of <= N operations over {Close, Direct(c1), Direct(c2), Direct(c1) from a denied peer, Next, UncacheCid(c1)}, each operation started in its own goroutine in a synctest bubble and observed at quiescence as returned(value) / blocked, compared after every step with a reference model of the receiver (closed flag, one-slot queue, duplicate set, blocked callers), and the same one operation shallower with an allow filter that itself calls the receiver (UncacheCid of an unrelated CID) before answering; (S) every set of 2 threads x 1-2 operations and 3 threads x 1 operation containing at least one Close (3 threads x <=2 operations in the thorough tier), all interleavings at the scheduling points of the instrumented announce package up to the preemption bound. states = distinct decision states / sequences; transitions = scheduling steps / operations; traces = executions of the real receiver.",
+		"(H) every sequence of <= N operations over {Close, Direct(c1), Direct(c2), Direct(c1) from a denied peer, Next, UncacheCid(c1)}, each operation started in its own goroutine in a synctest bubble and observed at quiescence as returned(value) / blocked, compared after every step with a reference model of the receiver (closed flag, one-slot queue, duplicate set, blocked callers), and the same one operation shallower with an allow filter that itself calls the receiver (UncacheCid of an unrelated CID) before answering, and the same at full depth with receivers that have a pubsub topic and republish every direct announcement (WithResend(true)); after every sequence that leaves the receiver open with nobody waiting, what is queued is taken out and a direct announcement of a fresh CID must go through (Direct returns, Next delivers it); (S) every set of 2 threads x 1-2 operations and 3 threads x 1 operation containing at least one Close (3 threads x <=2 operations in the thorough tier), all interleavings at the scheduling points of the instrumented announce package up to the preemption bound. states = distinct decision states / sequences; transitions = scheduling steps / operations; traces = executions of the real receiver.",
 		"(H) and (S): receiver without pubsub (nil host); (P): the receiver with a gossipsub topic on one transport-less libp2p host, a thread publishing one announcement, so that the watcher goroutine takes part: publish || Close, optionally || UncacheCid / Next / a second Close / Direct, the Direct variants also with WithResend(true) (direct announcements republished on a topic that has no other subscriber); every call returns and no receiver goroutine is left. Sequences in which Go itself may legally choose between two answers (Next after Close with a queued announcement, two Direct calls blocked at once) are skipped in (H) and accepted either way in (S)",
 		"instrumented select statements try their cases in source order (a legal restriction of Go's choice)",
 	)
@@ -700,6 +794,27 @@ func TestCheck(t *testing.T) {
 			rec(nil)
 			reentrantCallback, seqKeyPrefix = false, "seq|"
 		}
+	}
+	// and at full depth with receivers that republish what they are handed
+	// directly (pubsub topic, WithResend(true)): the pubsub sender is then part
+	// of every Direct
+	if !r.Replaying() || strings.HasPrefix(r.ReplayKey(), "resend-topic|seq|") {
+		hdepth := depth
+		var rec func(seq []op)
+		rec = func(seq []op) {
+			if len(seq) > 0 {
+				runSequence(t, r, seq)
+			}
+			if len(seq) == hdepth {
+				return
+			}
+			for o := op(0); o < nOps; o++ {
+				rec(append(seq[:len(seq):len(seq)], o))
+			}
+		}
+		resendTopic, seqKeyPrefix = true, "resend-topic|seq|"
+		rec(nil)
+		resendTopic, seqKeyPrefix = false, "seq|"
 	}
 
 	// (S)
